@@ -256,7 +256,19 @@ def run(ctx):
                 for st in (bare, wrapped):
                     st.store_blob(k, Obj(1), None)
             ops = []
-            for _ in range(rng.randint(4, 14)):
+            # the first sequences are fixed: a path committed, then moved under another spelling / through the second handle, then
+            # resolved under each spelling
+            DIRECTED = [
+                [["sync", [["/p1", "k1"]], False], ["sync", [["/p1/", "k2"]], False], ["fetch_paths", ["/p1"], False], ["fetch_paths", ["//p1"], False]],
+                [["sync", [["/d/p2", "k1"]], False], ["sync", [["/d/p2", "k3"]], True], ["fetch_paths", ["/d/p2"], False], ["fetch_paths", ["/d//p2"], False]],
+                [["sync", [["/d//p2", "k2"]], False], ["fetch_paths", ["/d/p2"], False], ["sync", [["/d/p2/", "k1"]], False], ["fetch_paths", ["/d//p2"], False],
+                 ["fetch_paths", ["/d/p2"], False]],
+                [["sync", [["/p3", "k1"]], True], ["fetch_paths", ["/p3/"], False], ["sync", [["/p3/", "k2"]], False], ["sync", [["/p3", "k3"]], True],
+                 ["fetch_paths", ["/p3/"], False], ["fetch_paths", ["/p3"], False]],
+            ]
+            if i < len(DIRECTED):
+                ops = [list(o) for o in DIRECTED[i]]
+            for _ in range(rng.randint(4, 14) if i >= len(DIRECTED) else 0):
                 p = rng.choice(sorted(SPELL))
                 r = rng.random()
                 if r < 0.45:
